@@ -160,3 +160,22 @@ package nilness
 //@   may_panic
 //@   modifies heap, s
 //@   ensures  [rule] istype(old(call.Call.Value), *ir.Builtin) && typeutil.IsPointerLike(call.Common().Signature().Results().At(idx).Type()) && typeutil.IsPointerLike(v.Type()) && old(len(call.Call.Args)) >= 1 && val(old(s.m), old(call.Call.Args[0])).Outer != 0 && wfN(val(old(s.m), old(call.Call.Args[0])).Outer) && absBuiltin(astype(old(call.Call.Value), *ir.Builtin).Name(), val(old(s.m), old(call.Call.Args[0])).Outer) != 0 ==> val(s.m, v).Outer == absBuiltin(astype(old(call.Call.Value), *ir.Builtin).Name(), val(old(s.m), old(call.Call.Args[0])).Outer)
+
+// processBlock (first closure of impl): an OPERAND may be refined to "never nil" after an
+// instruction only if executing the instruction with that operand nil does not continue
+// (it panics or blocks forever). Where that depends on the form of the instruction, the
+// condition (from the language specification, not from the code) is asserted at the refinement:
+//   x.(T) panics on a nil x only in its single-value form; v, ok := x.(T) does not;
+//   a slice-to-array(-pointer) conversion panics on a nil slice only for array length > 0;
+//   select blocks forever on a nil channel only if that is its single case and there is no default;
+//   the default branch of a type switch excludes nil only if there is a `case nil`.
+//@ func impl$1
+//@   noinline
+//@   nosafe   all
+//@   may_panic
+//@   modifies heap, s
+//@   at call (*state).setOuter#2 assert [s2ap]       allNonZero
+//@   at call (*state).setOuter#3 assert [s2a]        allNonZero
+//@   at call (*state).setOuter#21 assert [typeassert] !v.CommaOk
+//@   at call (*state).setOuter#24 assert [tsdefault]  hasNil
+//@   at call (*state).setOuter#30 assert [select]     v.Blocking && len(v.States) == 1
